@@ -185,7 +185,10 @@ Definition cancel_rule (c : case) : bool :=
 Definition panic_rule (c : case) : bool :=
   let t := c_trace c in
   if negb (has_cancel_act c) && Nat.eqb (c_ctx c) 0 && ex_before is_panic_ev is_ret t
-  then is_xpanic (c_out c) else true.
+  then is_xpanic (c_out c) ||
+       (* two clauses collide: a second reducer write panics in the caller ("written twice") before the re-check *)
+       (match c_out c with XTwice => true | _ => false end && Nat.leb 2 (List.length (rw_list t)))
+  else true.
 
 (* a done context makes the call return DeadlineExceeded *)
 Definition ctx_rule (c : case) : bool :=
@@ -246,7 +249,7 @@ Definition cas_rule (o : oracle) (s : state) (p : pval) : bool :=
   if wrote s then true
   else match o_pwin o with
        | Some p' => pval_eqb p p'
-       | None => match c s with CSelect | COut _ => false | _ => true end
+       | None => match c s with CDone _ => true | _ => false end      (* the last look is the deferred re-check *)
        end.
 Definition once_rule (o : oracle) (s : state) (e : err) : bool :=
   match conce s with
@@ -310,13 +313,17 @@ Definition allowed (o : oracle) (s : state) (l : label) : bool :=
   | LXAcq => more_to_map o s || (negb (ctxd s || fin s) && (nil_rest s || someone_drains s))
   | LC =>
       match c s with
-      | COut _ => if is_xpanic (o_out o) then wrote s else negb (wrote s)
+      | COut _ => is_xpanic (o_out o) || negb (wrote s)
       | CCancel CcEnter => once_rule o s EDeadline
       | CCancel CcFin => rs_committed o s
-      | CDefer _ => match o_out o with XTwice => match r s with RSend _ _ => true | _ => false end | _ => true end
+      | CDefer _ => match o_out o with
+                    | XTwice => match r s with RSend _ _ => true | _ => false end
+                    | XPanic _ => fin s && wrote s          (* re-raised at the latest by the deferred re-check *)
+                    | _ => true
+                    end
       | _ => true
       end
-  | LCCtx => match o_out o with XErr EDeadline => true | _ => false end
+  | LCCtx => match o_out o with XErr EDeadline => true | XPanic _ => true | _ => false end   (* a pending panic wins at exit *)
   | LCPanic => is_xpanic (o_out o)
   | LCOut =>
       match o_out o with
@@ -335,7 +342,7 @@ Definition allowed (o : oracle) (s : state) (l : label) : bool :=
 
 Definition candidates (s : state) : list label :=
   match c s with COut _ => [LC] | _ => [] end ++      (* the re-check follows the receive at once *)
-  map LW (seq 0 (List.length (ws s))) ++ [LR; LG; LGSendX; LGSendK; LX; LXAcq; LXStop; LC; LCCtx; LCPanic; LCOut].
+  map LW (seq 0 (List.length (ws s))) ++ [LR; LG; LGSendX; LGSendK; LX; LXAcq; LXStop; LC; LCPanic; LCCtx; LCOut].
 
 Fixpoint pick (cf : cfg) (o : oracle) (s : state) (ls : list label) : option state :=
   match ls with
